@@ -612,6 +612,26 @@ func (g *genCtx) mpEmpty() []ccase {
 				fmt.Sprintf("MP_UNREACH_NLRI afi %d safi %d without NLRI", afi, safi)))
 		}
 	}
+	// MP_REACH_NLRI with a complete header (IPv4 and IPv6, every next hop length bio-rd accepts, one NLRI) cut at
+	// EVERY value length: the attribute's own length stays consistent, its content ends early at each byte
+	for _, fam := range []struct {
+		afi  uint16
+		nhls []int
+	}{{1, []int{4}}, {2, []int{16, 32}}} {
+		for _, nhl := range fam.nhls {
+			full := []byte{byte(fam.afi >> 8), byte(fam.afi), 1, byte(nhl)}
+			for i := 0; i < nhl; i++ {
+				full = append(full, byte(0x20+i))
+			}
+			full = append(full, 0, 24, 10, 1, 2) // reserved octet, one /24
+			for l := 0; l < len(full); l++ {
+				c := g.cfg()
+				u := &wire.Update{Attrs: append(g.baseAttrs(c), wire.Attr{Flags: wire.FlagOptional, Type: wire.AttrMPReach, Value: full[:l]})}
+				out = append(out, g.mk("mp-empty", sess2.CutEstablished, c, wire.Frame(wire.TypeUpdate, u.EncodeBody(cfgOpts(c))), nil,
+					fmt.Sprintf("MP_REACH_NLRI afi %d announcing a next hop of %d bytes, attribute value cut after %d of %d bytes", fam.afi, nhl, l, len(full))))
+			}
+		}
+	}
 	// truncated MP attributes
 	for l := 0; l < 5; l++ {
 		for _, t := range []uint8{wire.AttrMPReach, wire.AttrMPUnreach} {
